@@ -8,16 +8,19 @@ Require Import GT.PyBase GT.Data GT.ScriptSpec GT.JsonSpec GT.JsonModel GT.Rende
 Import ListNotations.
 Open Scope Z_scope.
 
-(* For ALL trees, ALL scripts (valid or not) and all layouts: deleting the inserted characters leaves, token
+(* For all trees, all scripts (valid or not) outside the D23 shape, and all layouts: deleting the inserted characters leaves, token
    for token, the plain print of the document  nproj false a b e  that the script spells for the first side
    (a's children where matched at a cost or removed, in script order); deleting the removed ones leaves the
    print of  nproj true a b e.  Hypotheses: numbers print as non-empty atoms, string characters are
-   non-negative code points (tok_ok, edit_ok). *)
+   non-negative code points (tok_ok, edit_ok); no list element that is a mapping is replaced (clean: the
+   carve-out of finding D23, see C06_text_refuted_D23). *)
 Theorem C06_first : forall lay a b e, tok_ok a = true -> tok_ok b = true -> edit_ok e = true ->
+  clean false a e = true ->
   toks (erase Inserted (jrender lay a b e)) = ttoks (nproj false a b e).
 Proof. exact C06_first_all. Qed.
 
 Theorem C06_second : forall lay a b e, tok_ok a = true -> tok_ok b = true -> edit_ok e = true ->
+  clean false a e = true ->
   toks (erase Removed (jrender lay a b e)) = ttoks (nproj true a b e).
 Proof. exact C06_second_all. Qed.
 
@@ -43,7 +46,7 @@ Proof. exact C06_marks_cost_all. Qed.
    a resp. b up to the order of mapping members (jv_equiv (value_of (nproj side a b e)) (value_of a)) is not
    proved - it is evaluated on every implementation output by holds_C06. *)
 Theorem C06_text_partial : forall lay a b e,
-  tok_ok a = true -> tok_ok b = true -> edit_ok e = true ->
+  tok_ok a = true -> tok_ok b = true -> edit_ok e = true -> clean false a e = true ->
   valid a b e = true -> Faithful a b e -> ordered_only e = true -> kvp2 e = true ->
   sim (erase Inserted (jrender lay a b e)) (tprint lay 0 a) /\
   sim (erase Removed (jrender lay a b e)) (tprint lay 0 b).
@@ -53,13 +56,14 @@ Proof. exact C06_ordered_partial_all. Qed.
    every projection reads as the document the script spells for that side; for valid scripts over ordered
    containers that is the document itself.  json-shaped trees (jshape), JSON-domain values (jwfb false). *)
 Theorem C06_reads : forall side lay a b e, tok_ok a = true -> tok_ok b = true -> edit_ok e = true ->
+  clean false a e = true ->
   jshape (nproj side a b e) = true -> is_kvp (nproj side a b e) = false ->
   jwfb false (value_of (nproj side a b e)) = true ->
   jparse_lenient (erase (em side) (jrender lay a b e)) = Some (value_of (nproj side a b e)).
 Proof. exact C06_reads_all. Qed.
 
 Theorem C06_reads_ordered_partial : forall lay a b e,
-  tok_ok a = true -> tok_ok b = true -> edit_ok e = true ->
+  tok_ok a = true -> tok_ok b = true -> edit_ok e = true -> clean false a e = true ->
   valid a b e = true -> Faithful a b e -> ordered_only e = true -> kvp2 e = true ->
   (jshape a = true -> is_kvp a = false -> jwfb false (value_of a) = true ->
    jparse_lenient (erase Inserted (jrender lay a b e)) = Some (value_of a)) /\
@@ -67,7 +71,16 @@ Theorem C06_reads_ordered_partial : forall lay a b e,
    jparse_lenient (erase Removed (jrender lay a b e)) = Some (value_of b)).
 Proof. exact C06_reads_ordered_all. Qed.
 
-(* necessity of the hypotheses = the open findings: D4 (zero-cost match of 1 and 1.0) and D16 (zero-cost removal) *)
+(* necessity of the hypotheses = the open findings: D23 (a mapping replaced as an element of a list is printed
+   from -> to -> to), D4 (zero-cost match of 1 and 1.0) and D16 (zero-cost removal) *)
+Theorem C06_text_refuted_D23 :
+  exists lay a b e, tok_ok a = true /\ tok_ok b = true /\ edit_ok e = true /\ valid a b e = true /\
+                    Faithful a b e /\ ordered_only e = true /\ kvp2 e = true /\ additive e = true /\
+                    ~ sim (erase Inserted (jrender lay a b e)) (tprint lay 0 a) /\
+                    ~ sim (erase Removed (jrender lay a b e)) (tprint lay 0 b) /\
+                    jparse_lenient (erase Inserted (jrender lay a b e)) = None.
+Proof. exact C06_mapping_replaced_refuted. Qed.
+
 Theorem C06_text_refuted_D4 :
   exists lay a b e, tok_ok a = true /\ tok_ok b = true /\ edit_ok e = true /\ valid a b e = true /\
                     ordered_only e = true /\ kvp2 e = true /\
@@ -82,7 +95,8 @@ Proof. exact C06_marks_cost_refuted. Qed.
 Example C06_hypotheses_example :
   tok_ok ex_a = true /\ tok_ok ex_b = true /\ edit_ok ex_e = true /\ valid ex_a ex_b ex_e = true /\
   Faithful ex_a ex_b ex_e /\ ordered_only ex_e = true /\ kvp2 ex_e = true /\ additive ex_e = true /\
-  pos_costs ex_e = true /\ cost ex_e <> 0 /\ marks (jrender (false, false) ex_a ex_b ex_e) <> [].
+  pos_costs ex_e = true /\ clean false ex_a ex_e = true /\
+  cost ex_e <> 0 /\ marks (jrender (false, false) ex_a ex_b ex_e) <> [].
 Proof. exact C06_hypotheses_inhabited. Qed.
 
 Print Assumptions C06_first.
